@@ -19,7 +19,7 @@ ASSUMPTIONS = ["a process forked from the parent that has imported pygradflow bu
 FRESH = True
 CASE_ALARM_S = 300
 OPS_QUICK = ["default", "exact_filter", "resolve", "scaled", "scaled_b", "lamerr", "cb_abort", "pareto"]
-OPS_THOROUGH = OPS_QUICK + ["unsym", "derivcheck", "debug", "integration", "second"]
+OPS_THOROUGH = OPS_QUICK + ["unsym", "derivcheck", "debug", "integration", "second", "rcond_single", "exp_far"]
 
 
 _SHARED = {}
@@ -83,6 +83,18 @@ def op_setup(op):
         spec = specs[0]
         params = R.make_params({"iteration_limit": 60, "penalty": "ObjectiveFilter"})
         prob = UserProblem(spec)
+    elif op == "rcond_single":
+        # single precision + condition estimates on a badly scaled problem: the estimate's final products overflow
+        from pgfmc.model import specs as S
+        spec = S.mk(2, "rosen", [], ["free", "free"], x0_idx=3, tight=False)
+        params = R.make_params({"iteration_limit": 60, "newton": "Full", "step_solver": "Standard",
+                                "params": {"report_rcond": True, "precision": "Single"}})
+        prob = UserProblem(spec)
+    elif op == "exp_far":
+        # exp(x) - x started far to the left: trial points overflow, which must be handled the same way after any history
+        spec = G.raw(1, {"exp": [1.0], "g": [-1.0]}, [], ["-inf"], ["inf"], [-1200.0], "exp_far_start")
+        params = R.make_params({"iteration_limit": 80})
+        prob = UserProblem(spec)
     elif op == "debug":
         spec = specs[3]
         params = R.make_params({"iteration_limit": 30, "display_interval": 0.0, "penalty": "DualEquilibration"})
@@ -97,13 +109,36 @@ def op_setup(op):
     return spec, prob, params, lvl
 
 
+def global_state():
+    """Process-global state a library must leave alone."""
+    import logging
+    import random
+    import warnings
+
+    return {
+        "numpy error mode": dict(np.geterr()),
+        "numpy print options": {k: repr(v) for k, v in np.get_printoptions().items()},
+        "numpy global random state": hash(np.random.get_state()[1].tobytes()),
+        "python random state": hash(random.getstate()),
+        "root logger level": logging.getLogger().level,
+        "gradflow logger level": logging.getLogger("gradflow").level,
+        "number of warning filters": len(warnings.filters),
+    }
+
+
 def run_history(hist):
     """Executes the operations of `hist` in this process; returns the digest of each."""
     from pgfmc.drive import run as R
 
     out = []
     last = None  # (solver, spec, params, lvl, op)
+    gs0 = global_state()
     for op in hist:
+        gs = global_state()
+        if gs != gs0:
+            changed = [k for k in gs if gs[k] != gs0[k]]
+            out.append(("GLOBAL-STATE:" + ",".join(changed), f"{ {k: (gs0[k], gs[k]) for k in changed} }"))
+            gs0 = gs
         if op == "integration":
             out.append(integration_digest())
             continue
@@ -136,6 +171,10 @@ def run_history(hist):
             solver.callbacks.unregister(handle)  # a later re-solve on this solver runs without the aborting callback
         last = (solver, spec, prob, params, lvl, op)
         out.append((op, rec.digest))
+    gs = global_state()
+    if gs != gs0:
+        changed = [k for k in gs if gs[k] != gs0[k]]
+        out.append(("GLOBAL-STATE:" + ",".join(changed), f"{ {k: (gs0[k], gs[k]) for k in changed} }"))
     return out
 
 
@@ -189,13 +228,27 @@ def references(tier):
     return refs
 
 
+PAIR_OPS = ["rcond_single", "exp_far", "default"]
+
+
 def cases(tier, seed):
     refs = references(tier)
+    if tier == "quick":
+        # a second, small alphabet (depth 2) for state that one kind of solve leaves behind for another
+        ctx = mp.get_context("fork")
+        for op in PAIR_OPS:
+            if op not in refs:
+                with ctx.Pool(1, maxtasksperchild=1) as pool:
+                    refs[op] = pool.apply(_alone, (op,))
     depth = 3 if tier == "quick" else 4
     out = []
     for d in range(1, depth + 1):
         for hist in itertools.product(ops(tier), repeat=d):
             out.append({"hist": list(hist), "refs": refs})
+    if tier == "quick":
+        for d in (1, 2):
+            for hist in itertools.product(PAIR_OPS, repeat=d):
+                out.append({"hist": list(hist), "refs": refs})
     return out
 
 
@@ -204,6 +257,10 @@ def run_case(case):
     res = run_history(case["hist"])
     viol = []
     for i, (op, dg) in enumerate(res):
+        if op.startswith("GLOBAL-STATE:"):
+            viol.append({"sig": "C10|global_state|" + op.split(":", 1)[1], "msg": f"a solve of history {case['hist']} changed process-global state: {dg}",
+                         "detail": {"hist": case["hist"]}})
+            break
         base = op.split(":")[1] if op.startswith("resolve:") else op
         if dg != refs[base]:
             kind = "resolve" if op.startswith("resolve:") else "fresh_solver"
